@@ -232,3 +232,17 @@ PROPS["C13"] = dict(
                                       "heterogeneous structures are modelled as never matching a depth/type filter",
                                       "shared-memory adoption of distances is covered by C19"],
 )
+
+
+PROPS["C15"] = dict(
+    level_text="Exhaustive within bounds: breadth-first exploration of every history of register / restrict / dup / XML-reload calls up to "
+               "depth 3 over a 4-PU (5 thorough) universe on the real library; after every step all kinds, infos, efficiencies and "
+               "get_by_cpuset over every subset are compared with a partition reference model.",
+    technique="explicit-state BFS over cpukinds API histories of the real library against a partition reference model",
+    design_ref="DESIGN.md 5 (C15)",
+    stages=[simple("kinds", "c15_cpukinds", parts=32, deadline={"quick": 120, "thorough": 3000})],
+    explanation="register(S in all non-empty subsets + empty + NULL + a PU outside the topology, forced efficiency in {-1,0,1,2}, 5 info variants, flags in {0,1}), "
+                "restrict to every proper subset, switch-to-dup, switch-to-XML-reload; states deduplicated on the reference partition.",
+    bounds={"quick": "4 PUs, depth 3 (full (efficiency, infos) product at depth 1, a covering diagonal deeper)", "thorough": "5 PUs, depth 3"},
+    assumptions=COMMON_ASSUMPTIONS + ["efficiencies are only compared with forced values when all are known and pairwise distinct; the frequency/core-type heuristics are outside the property"],
+)
